@@ -102,7 +102,8 @@ func run(c *eng.Ctx) error {
 			cleanup()
 			os.RemoveAll(dir)
 		}()
-		c.W.Reset(t, map[string]any{"mem": memOn, "maxsize": int(maxSize)})
+		late := t >= n-2 // the last two histories of a run: a writer handle opened before the commit is used after it (F01b)
+		c.W.Reset(t, map[string]any{"mem": memOn, "maxsize": int(maxSize), "latewrite": late})
 		dn := func(i int) string { return fmt.Sprintf("d%d", i+1) }
 		observe := func(kv []any) []any {
 			vis, stat, meta := make([]string, len(blobs)), make([]string, len(blobs)), make([]string, len(blobs))
@@ -143,6 +144,26 @@ func run(c *eng.Ctx) error {
 			return append(kv, "vis", vis, "stat", stat, "meta", meta, "listed", listed)
 		}
 		ev := func(name string, kv ...any) { c.W.Ev(name, observe(kv)...) }
+		if late {
+			bl := blobs[0]
+			uid := "late"
+			err := cas.CreateUploadFile(uid, 0)
+			var w store.FileReadWriter
+			if err == nil {
+				if w, err = cas.GetUploadFileReadWriter(uid); err == nil {
+					w.Write(bl.b)
+					err = cas.MoveUploadFileToCache(uid, bl.d.Hex()) // the handle stays open across the commit
+				}
+			}
+			ev("Upload", "d", dn(0), "kind", "exact", "res", cls(err))
+			if w != nil {
+				w.Seek(0, io.SeekStart)
+				w.Write([]byte{bl.b[0] ^ 0x5a})
+				w.Close()
+				ev("LateWrite", "d", dn(0), "kind", "flipped")
+			}
+			return
+		}
 		steps := 6 + rng.Intn(10)
 		for s := 0; s < steps; s++ {
 			i := rng.Intn(len(blobs))
